@@ -20,7 +20,7 @@ RULE = ("Fake python-libusb1 backend injected through sys.modules['usb1'] before
         "close, in any order; timeouts {None,0,0.0004,0.5,3} U floats; read sizes; backend short reads and short writes; a backend USBError of a drawn subclass injected at a drawn transfer index, and "
         "additionally enumerated at EVERY transfer index of a fixed sequence): claimInterface(interface number) on connect; every write goes to the OUT endpoint and every read to the IN endpoint with the "
         "data in order; a read never returns more than requested; timeout= is an int within 1 ms of 1000*t (of 1000*default for None); every USBError surfaces as UsbReadFailedError/UsbWriteFailedError, also when reading the serial number fails as well (device unplugged); "
-        "after close() both calls raise those errors, also when the backend raises a USBError inside close() itself. (b) whole sessions through AdbDeviceUsb(serial=/port_path=) with 1-3 devices on the bus and the handle wired to the device simulator: results == model, "
+        "after close() both calls raise those errors, also when the backend raises a USBError inside close() itself. devices optionally list a fastboot interface (ff/42/03) before the ADB one (ff/42/01). (b) whole sessions through AdbDeviceUsb(serial=/port_path=) with 1-3 devices on the bus and the handle wired to the device simulator: results == model, "
         "host packets == the in-memory run. Non-trivial: a sequence/session with >= 1 short transfer or an injected error. Distinct = case hash.")
 ASSUMPTIONS = ["fidelity of the hand-written fake (advf/fakeusb1.py) to python-libusb1's documented behaviour", "device simulator for sessions"]
 
@@ -52,14 +52,15 @@ def seq_cases(draw):
             "error": draw(st.integers(0, len(ERRS) - 1)), "kernel_driver": draw(st.sampled_from([False, True, "notfound"])),
             "close_error": draw(st.sampled_from([None, None, "release", "close"])),       # a USBError raised by the backend inside close()
             "unplugged": draw(st.sampled_from([False, False, True])),                       # reading the serial number fails too (device gone)
-            "via_find": draw(st.sampled_from([None, None, "serial", "port_path", "first"]))}     # obtain the transport through UsbTransport.find_adb(...) instead of constructing it
+            "via_find": draw(st.sampled_from([None, None, "serial", "port_path", "first"])),
+            "fastboot_first": draw(st.booleans())}        # the device lists another ff/42 interface (protocol 3, fastboot) before the ADB interface     # obtain the transport through UsbTransport.find_adb(...) instead of constructing it
 
 
 def check_seq(case):
     import warnings
     W = fakeusb1.WORLD
     W.reset()
-    dev = fakeusb1.USBDevice(kernel_driver=case["kernel_driver"])
+    dev = fakeusb1.USBDevice(kernel_driver=case["kernel_driver"], fastboot_first=bool(case.get("fastboot_first")))
     W.devices.append(dev)
     if case["error_at"] is not None:
         dev.errors[case["error_at"]] = ERRS[case["error"]]
@@ -237,7 +238,7 @@ def session_cases(draw):
                             "path": "/usb-big", "mtime": 3, "cb": None})
         case["transport"]["wcap"] = draw(st.sampled_from([[10000], [20000], [16384, 5000], [100000], []]))
     case["usb"] = {"select": draw(st.sampled_from(["serial", "port_path_list", "port_path_str", "first"])), "decoys": draw(st.integers(0, 2)),
-                   "default_timeout": draw(st.sampled_from([None, 3.0, 9.0]))}
+                   "default_timeout": draw(st.sampled_from([None, 3.0, 9.0])), "fastboot_first": draw(st.booleans())}
     return case
 
 
@@ -256,7 +257,7 @@ def run_usb_session(case):
     out.clock = clock
     out.api = "sync"
     usb = case["usb"]
-    target = fakeusb1.USBDevice(serial="TARGET", bus=3, ports=(1, 4))
+    target = fakeusb1.USBDevice(serial="TARGET", bus=3, ports=(1, 4), fastboot_first=bool(usb.get("fastboot_first")))
     orig_open = target.open
 
     def open_():
